@@ -84,10 +84,18 @@ NearWindowEnd(x) == Window(IdealNTP(x) + Tol64) # Window(IdealNTP(x))
 \* @type: (Int, Int) => Bool;
 WindowEdgeRoundsUp(t, ref) == NearWindowEnd(t) \/ NearWindowEnd(ref)
 
+\* The recorded finding as a NAMED as-found model: ToTime32 takes its 16 top bits from ToNTP(reference) - nref, as the code
+\* computed it, rounding included - and its 32 middle bits from m; the result is the instant of THAT 64-bit value (to within
+\* the microsecond of ToTime).  A row in the region is excused iff it is exactly this; any other result there is a violation.
+\* @type: (Int) => Int;
+IdealTime(n) == ((n \div Two32) - Epoch) * NS + ((n % Two32) * NS) \div Two32
+\* @type: (Int, Int, Int) => Bool;
+AsFound32(m, nref, back32) == Abs(back32 - IdealTime(Window(nref) * Two16 * Two32 + m * Two16)) <= TolNs
+
 \* ---- one row: the (sample k, clause c) obligations ----
-\* @type: (Int, Bool, Int, Int, Int, Int, Int, Int, Int, Int) => Bool;
-Chk(k, wk, t, n, back, t2, n2, m, ref, back32) ==
-  LET excused == wk /\ WindowEdgeRoundsUp(t, ref) IN
+\* @type: (Int, Bool, Int, Int, Int, Int, Int, Int, Int, Int, Int) => Bool;
+Chk(k, wk, t, n, back, t2, n2, m, ref, back32, nref) ==
+  LET excused == wk /\ WindowEdgeRoundsUp(t, ref) /\ AsFound32(m, nref, back32) /\ NearIdeal(ref, nref) IN
   i = k =>
     /\ (c = "Monotone"    => Monotone(t, n, t2, n2))
     /\ (c = "RoundTrip"   => RoundTrip(t, back))
